@@ -194,6 +194,69 @@ fn oracle_case(c: &Case, n: usize, fails: &mut Vec<String>, stats: &mut BTreeMap
     }
 }
 
+/// Bounded-exhaustive exploration: every tracker state reachable with ranges inside [0, uni), every
+/// operation with every offset/size inside the universe from each of them (breadth first; the
+/// Assembler is Clone).  Each transition is checked against the bit-set shadow.  With `emit`, every
+/// transition is also written as a case (path to the state + the op) for the correspondence.
+fn exhaustive(uni: usize, n: usize, emit: Option<&mut dyn Write>) -> (usize, usize, Vec<String>) {
+    use std::collections::{HashMap, VecDeque};
+    let mut seen: HashMap<Vec<(usize, usize)>, Vec<String>> = HashMap::new();
+    let mut queue: VecDeque<(Assembler, Vec<String>)> = VecDeque::new();
+    seen.insert(vec![], vec![]);
+    queue.push_back((Assembler::new(), vec![]));
+    let mut ops: Vec<String> = vec!["rf".into(), "clear".into()];
+    for o in 0..uni {
+        for s in 0..=(uni - o) {
+            ops.push(format!("add {} {}", o, s));
+            ops.push(format!("atrf {} {}", o, s));
+        }
+    }
+    let mut transitions = 0;
+    let mut fails = vec![];
+    let mut emit = emit;
+    let mut k = 0;
+    while let Some((a, path)) = queue.pop_front() {
+        for op in &ops {
+            transitions += 1;
+            let mut c = Case { id: format!("x{}-{}", uni, k), cfg: vec![("n".into(), n.to_string())], ops: path.clone() };
+            c.ops.push(op.clone());
+            k += 1;
+            let mut f = vec![];
+            let mut st = BTreeMap::new();
+            oracle_case(&c, n, &mut f, &mut st);
+            if !f.is_empty() && fails.len() < 10 {
+                fails.extend(f);
+            }
+            if let Some(w) = emit.as_mut() {
+                c.write(*w);
+            }
+            // successor state
+            let mut b = a.clone();
+            let t: Vec<&str> = op.split_whitespace().collect();
+            match t[0] {
+                "add" => {
+                    let _ = b.add(t[1].parse().unwrap(), t[2].parse().unwrap());
+                }
+                "atrf" => {
+                    let _ = b.add_then_remove_front(t[1].parse().unwrap(), t[2].parse().unwrap());
+                }
+                "rf" => {
+                    b.remove_front();
+                }
+                _ => b.clear(),
+            }
+            let key: Vec<(usize, usize)> = b.iter_data().collect();
+            if !seen.contains_key(&key) {
+                let mut p2 = path.clone();
+                p2.push(op.clone());
+                seen.insert(key, p2.clone());
+                queue.push_back((b, p2));
+            }
+        }
+    }
+    (seen.len(), transitions, fails)
+}
+
 fn main() {
     quiet_panics();
     let (sub, seed, n, tier) = args();
@@ -237,6 +300,25 @@ fn main() {
             }
             let st: Vec<String> = stats.iter().map(|(k, v)| format!("{}:{}", jstr(k), v)).collect();
             writeln!(out, "STATS {{\"cases\":{},\"cap\":{},{}}}", cases.len(), capn, st.join(",")).unwrap();
+        }
+        "oracle-exh" | "gen-exh" => {
+            // `n` is the universe size here; only shard 0 (seed ending in 000) does the work
+            let uni = n.max(2);
+            if seed % 1000 != 0 {
+                if sub == "oracle-exh" {
+                    writeln!(out, "STATS {{\"cases\":0}}").unwrap();
+                }
+                return;
+            }
+            if sub == "gen-exh" {
+                exhaustive(uni, capn, Some(&mut out));
+            } else {
+                let (states, transitions, fails) = exhaustive(uni, capn, None);
+                for f in &fails {
+                    writeln!(out, "FAIL {}", f).unwrap();
+                }
+                writeln!(out, "STATS {{\"cases\":{},\"exh_universe\":{},\"exh_states\":{},\"exh_transitions\":{},\"cap\":{}}}", transitions, uni, states, transitions, capn).unwrap();
+            }
         }
         "oracle-replay" => {
             let mut fails = vec![];
